@@ -87,15 +87,16 @@ def role_fn(pg, mm, nat):
 
 def families(args):
     progs = ppfamily.comment_programs(args.tier, args.seed) + ppfamily.site_programs(args.tier, args.seed)
-    progs += ppfamily.cond_programs('quick', args.seed)[::8 if args.tier == 'quick' else 2]
+    cp = ppfamily.cond_programs('quick', args.seed)
+    progs += cp[::8 if args.tier == 'quick' else 2] + [p for p in cp if p.label.startswith('via-macro/') and p not in cp[::8 if args.tier == 'quick' else 2]]
     fam = ppprop.Family('strip-vs-keep', progs, mk_case, ('tokens', 'table'), extra_check=extra_check, role_fn=role_fn,
                         quirk_roles=[(('elsif_predefined_uses_ifid',), 'F3:elsif-predefined-test-uses-first-identifier', ('tokens', 'table')),
                                      (('cond_head_ws_dropped',), 'F14:white-space-after-conditional-head-dropped', ('tokens',))])
     # `define lines and bodies holding `//`, strings with slashes, continuations, `"-strings: kept verbatim under the flag
     # (function-like macros: text-level reference expander of C05)
     import c05
-    keep = ('string-with-slashes', 'body-line-comment', 'continuation', 'string-untouched', 'stringify', 'actual-string-with-ticks')
-    mprogs = [p for p in ppfamily.macro_programs(args.tier, args.seed) if p.label.split('/', 1)[1] in keep or args.tier != 'quick']
+    keep = ('object-with-parens-line-comment', 'object-with-parens', 'string-with-slashes', 'body-line-comment', 'continuation', 'string-untouched', 'stringify', 'actual-string-with-ticks')
+    mprogs = [p for p in ppfamily.macro_programs(args.tier, args.seed) if p.label.split('/')[1] in keep or args.tier != 'quick']
     fam2 = ppprop.Family('strip-vs-keep/define-bodies', mprogs, mk_case, ('tokens', 'table'), evalfn=c05.evalfn, extra_check=extra_check, role_fn=role_fn)
     return [fam, fam2]
 
